@@ -661,6 +661,121 @@ func fixImports(fname string, src []byte, simPath string) []byte {
 
 var selN, goN int
 
+var labeledSelect = map[*ast.LabeledStmt]*ast.BlockStmt{}
+
+func ident(format string, a ...interface{}) *ast.Ident { return ast.NewIdent(fmt.Sprintf(format, a...)) }
+
+func intLit(i int) *ast.BasicLit { return &ast.BasicLit{Kind: token.INT, Value: fmt.Sprint(i)} }
+
+func define(lhs []ast.Expr, rhs ...ast.Expr) *ast.AssignStmt {
+	return &ast.AssignStmt{Lhs: lhs, Tok: token.DEFINE, Rhs: rhs}
+}
+
+func simCall(name string, args ...ast.Expr) *ast.CallExpr {
+	return &ast.CallExpr{Fun: simSel(name), Args: args}
+}
+
+// rewriteSelect turns
+//
+//	select { case v, ok := <-a: A; case b <- x: B; default: D }
+//
+// into code that (1) evaluates the channel and value expressions once, as select does,
+// (2) tries the communications one by one without blocking, in an order chosen by the
+// schedule (Go picks among the ready ones at random: that choice is the schedule's now),
+// (3) if none is ready runs the default clause or, without one, hands the baton on and tries
+// again, and (4) dispatches to the chosen clause's body through a switch (break and labels
+// keep their meaning; continue passes through to the enclosing loop as before).
+func rewriteSelect(n *ast.SelectStmt, parent ast.Node, fset *token.FileSet) *ast.BlockStmt {
+	selN++
+	id := selN
+	chosen := ident("verifChosen%d", id)
+	var pre []ast.Stmt
+	var tryCases, bodyCases []ast.Stmt
+	ncomm := 0
+	defaultIdx := -1
+	for i, cl := range n.Body.List {
+		cc := cl.(*ast.CommClause)
+		body := append([]ast.Stmt(nil), cc.Body...)
+		if cc.Comm == nil {
+			defaultIdx = i
+			bodyCases = append(bodyCases, &ast.CaseClause{List: []ast.Expr{intLit(i)}, Body: body})
+			continue
+		}
+		ncomm++
+		chv := ident("verifC%d_%d", id, i)
+		var tryBody []ast.Stmt
+		setChosen := &ast.AssignStmt{Lhs: []ast.Expr{chosen}, Tok: token.ASSIGN, Rhs: []ast.Expr{intLit(i)}}
+		switch st := cc.Comm.(type) {
+		case *ast.SendStmt:
+			sv := ident("verifS%d_%d", id, i)
+			pre = append(pre, define([]ast.Expr{chv}, st.Chan), define([]ast.Expr{sv}, simCall("SendVal", chv, st.Value)))
+			tryBody = []ast.Stmt{&ast.IfStmt{Cond: simCall("TrySend", chv, sv), Body: &ast.BlockStmt{List: []ast.Stmt{setChosen}}}}
+		case *ast.ExprStmt:
+			u := st.X
+			for {
+				if p, ok := u.(*ast.ParenExpr); ok {
+					u = p.X
+					continue
+				}
+				break
+			}
+			pre = append(pre, define([]ast.Expr{chv}, u.(*ast.UnaryExpr).X))
+			got := ident("verifGot")
+			tryBody = []ast.Stmt{&ast.IfStmt{Init: define([]ast.Expr{ast.NewIdent("_"), ast.NewIdent("_"), got}, simCall("TryRecv", chv)), Cond: got, Body: &ast.BlockStmt{List: []ast.Stmt{setChosen}}}}
+		case *ast.AssignStmt:
+			u := st.Rhs[0]
+			for {
+				if p, ok := u.(*ast.ParenExpr); ok {
+					u = p.X
+					continue
+				}
+				break
+			}
+			vv, kv := ident("verifV%d_%d", id, i), ident("verifK%d_%d", id, i)
+			pre = append(pre, define([]ast.Expr{chv}, u.(*ast.UnaryExpr).X), define([]ast.Expr{vv}, simCall("ZeroOf", chv)), define([]ast.Expr{kv}, ast.NewIdent("false")),
+				&ast.AssignStmt{Lhs: []ast.Expr{ast.NewIdent("_"), ast.NewIdent("_")}, Tok: token.ASSIGN, Rhs: []ast.Expr{vv, kv}})
+			tv, tk, got := ident("verifTV"), ident("verifTK"), ident("verifGot")
+			tryBody = []ast.Stmt{&ast.IfStmt{Init: define([]ast.Expr{tv, tk, got}, simCall("TryRecv", chv)), Cond: got, Body: &ast.BlockStmt{List: []ast.Stmt{
+				&ast.AssignStmt{Lhs: []ast.Expr{vv, kv}, Tok: token.ASSIGN, Rhs: []ast.Expr{tv, tk}}, setChosen}}}}
+			rhs := []ast.Expr{vv}
+			if len(st.Lhs) == 2 {
+				rhs = append(rhs, kv)
+			}
+			body = append([]ast.Stmt{&ast.AssignStmt{Lhs: st.Lhs, Tok: st.Tok, Rhs: rhs}}, body...)
+		}
+		tryCases = append(tryCases, &ast.CaseClause{List: []ast.Expr{intLit(i)}, Body: tryBody})
+		bodyCases = append(bodyCases, &ast.CaseClause{List: []ast.Expr{intLit(i)}, Body: body})
+	}
+	// the order in which the communications are tried: positions among the clauses
+	var idxs []ast.Expr
+	for i, cl := range n.Body.List {
+		if cl.(*ast.CommClause).Comm != nil {
+			idxs = append(idxs, intLit(i))
+		}
+	}
+	iv := ident("verifI%d", id)
+	var none ast.Stmt = simCallStmt("YieldBlocked")
+	if defaultIdx >= 0 {
+		none = &ast.AssignStmt{Lhs: []ast.Expr{chosen}, Tok: token.ASSIGN, Rhs: []ast.Expr{intLit(defaultIdx)}}
+	}
+	loop := &ast.ForStmt{
+		Cond: &ast.BinaryExpr{X: chosen, Op: token.LSS, Y: intLit(0)},
+		Body: &ast.BlockStmt{List: []ast.Stmt{
+			&ast.RangeStmt{Key: ast.NewIdent("_"), Value: iv, Tok: token.DEFINE, X: simCall("SelectOrder", idxs...), Body: &ast.BlockStmt{List: []ast.Stmt{
+				&ast.SwitchStmt{Tag: iv, Body: &ast.BlockStmt{List: tryCases}},
+				&ast.IfStmt{Cond: &ast.BinaryExpr{X: chosen, Op: token.GEQ, Y: intLit(0)}, Body: &ast.BlockStmt{List: []ast.Stmt{&ast.BranchStmt{Tok: token.BREAK}}}},
+			}}},
+			&ast.IfStmt{Cond: &ast.BinaryExpr{X: chosen, Op: token.LSS, Y: intLit(0)}, Body: &ast.BlockStmt{List: []ast.Stmt{none}}},
+		}},
+	}
+	var dispatch ast.Stmt = &ast.SwitchStmt{Tag: chosen, Body: &ast.BlockStmt{List: bodyCases}}
+	if ls, ok := parent.(*ast.LabeledStmt); ok && ls.Stmt == n {
+		dispatch = &ast.LabeledStmt{Label: ast.NewIdent(ls.Label.Name), Stmt: dispatch}
+	}
+	stmts := append(pre, define([]ast.Expr{chosen}, &ast.UnaryExpr{Op: token.SUB, X: intLit(1)}), loop, dispatch)
+	return &ast.BlockStmt{List: stmts}
+}
+
 var syncMethods = map[string]string{
 	"(*sync.Mutex).Lock": "MutexLock", "(*sync.Mutex).Unlock": "MutexUnlock",
 	"(*sync.RWMutex).Lock": "RWLock", "(*sync.RWMutex).Unlock": "RWUnlock", "(*sync.RWMutex).RLock": "RWRLock", "(*sync.RWMutex).RUnlock": "RWRUnlock",
@@ -800,46 +915,18 @@ func instrumentConcurrency(file *ast.File, info *types.Info, fset *token.FileSet
 			rep.Rewrites["range over channel"]++
 			used = true
 		case *ast.SelectStmt:
-			for _, cl := range n.Body.List {
-				if cl.(*ast.CommClause).Comm == nil {
-					return true // has a default clause: never blocks
-				}
-			}
-			var label *ast.Ident
+			blk := rewriteSelect(n, c.Parent(), fset)
 			if ls, ok := c.Parent().(*ast.LabeledStmt); ok && ls.Stmt == n {
-				label = ls.Label
+				labeledSelect[ls] = blk
 			} else {
-				selN++
-				label = ast.NewIdent(fmt.Sprintf("verifSel%d", selN))
-			}
-			n.Body.List = append(n.Body.List, &ast.CommClause{Body: []ast.Stmt{
-				simCallStmt("YieldBlocked"),
-				&ast.BranchStmt{Tok: token.GOTO, Label: ast.NewIdent(label.Name)},
-			}})
-			if _, ok := c.Parent().(*ast.LabeledStmt); !ok {
-				c.Replace(&ast.LabeledStmt{Label: label, Stmt: n})
+				c.Replace(blk)
 			}
 			rep.Rewrites["select"]++
-			for _, cl := range n.Body.List {
-				cc := cl.(*ast.CommClause)
-				var ch ast.Expr
-				switch st := cc.Comm.(type) {
-				case *ast.ExprStmt:
-					if u, ok := isRecv(st.X); ok {
-						ch = u.X
-					}
-				case *ast.AssignStmt:
-					if u, ok := isRecv(st.Rhs[0]); ok {
-						ch = u.X
-					}
-				case *ast.SendStmt:
-					ch = st.Chan
-				}
-				if ch != nil {
-					rep.Warnings = append(rep.Warnings, fmt.Sprintf("%s: select clause on %s is tried without blocking; a rendezvous on an UNBUFFERED channel inside select is not modelled", fset.Position(cc.Pos()), nodeString(fset, ch)))
-				}
-			}
 			used = true
+		case *ast.LabeledStmt:
+			if blk, ok := labeledSelect[n]; ok {
+				c.Replace(blk)
+			}
 		case *ast.CallExpr:
 			sel, ok := n.Fun.(*ast.SelectorExpr)
 			if !ok {
